@@ -151,6 +151,9 @@ class World:
         if arm is not None and not pending:
             self.faults["seam.raise"] += 1
             self.faults["seam.raise:" + arm[0]] += 1
+            if arm[0] == "np.*":
+                self.probes["fault.died_in_a_numpy_call(np.*)"] += 1
+                self.probes["fault.np.*:" + arm[2]] += 1
         return out
 
     def fn(self, spec):
